@@ -509,6 +509,10 @@ class Gen:
                     decls.append({"d": "var", "t": "u"})     # an allocation AFTER the nested evaluation
                     sc["vars"].append(len(sc["vars"]))
                     sc["plain_vars"].append(sc["vars"][-1])
+                if r.random() < 0.5:
+                    decls.append({"d": "abi", "t": "uint64"})   # ... and an ABI value (frame variable or slot, by the marker)
+                    sc["avars"].append(len(sc["avars"]))
+                    sc["avars64"].append(sc["avars"][-1])
         # initialisation of everything, then random statements
         init = []
         for i in sc["vars"]:
